@@ -384,6 +384,7 @@ func main() {
 	if err != nil {
 		core.Fatalf("%v", err)
 	}
+	core.RemoveAtExit(dir)
 	defer os.RemoveAll(dir)
 	workFile := filepath.Join(dir, "work.ndjson")
 	{
